@@ -201,7 +201,7 @@ pub fn run(ctx: &mut Ctx) {
             }
         }
     }
-    let n = ctx.budget(100_000, 3_000_000);
+    let n = ctx.budget(1_000_000, 20_000_000);
     for i in 0..n {
         if !ctx.next_case() {
             return;
